@@ -28,7 +28,8 @@ readings) instantiated with the configuration regenerated from /repo on every ru
   `consumers_within_slack` (UT1 / TDB: 2 µs);
 * CCSDS reading — `parse_date_passes_scale`, `parse_date_call_sites_use_time_system` (on the regenerated tables),
   `parseDate_scale_reaches_date`, `parseDate_reading_label_free`; writing then reading —
-  `ccsds_writers_convert_to_time_system` (regenerated emission sites of the writers), `ccsds_epoch_roundtrip` (an epoch
+  `ccsds_writers_convert_to_time_system` (regenerated emission sites of the writers, per segment),
+  `ccsds_segments_own_time_system`, `ccsds_epoch_roundtrip` (an epoch
   labelled in any uniform scale, written under any TIME_SYSTEM, reads back as the instant written — since fix aa1842c;
   regression witness `Witness/C04.lean: ccsds_mixed_label_moves_instant`), `ccsds_epoch_roundtrip_slack` (UT1 / TDB: 2.5 µs).
 
@@ -484,11 +485,38 @@ example : CcsdsDate.parseText branches "2016-12-30T14:00:36.000000" = some (⟨"
 
 /-! ## CCSDS: writing, then reading -/
 
-/-- **every writer converts the epochs it emits to the message's TIME_SYSTEM** (regenerated emission sites of the OPM,
-OEM, OMM and TDM writers): each formatted epoch is the head date itself, an `in_scale(date, head.scale)`, or the
-header's `Date.now()` — never a date printed in its own scale -/
+/-- **every writer converts the epochs it emits to the TIME_SYSTEM of the segment they belong to** (regenerated emission
+sites of the OPM, OEM, OMM and TDM writers): each formatted epoch is the segment's head date itself, an
+`in_scale(date, head.scale)` whose scale is that of the SAME segment's head (evaluated in the loop turn that prints the
+segment's metadata), or the header's `Date.now()` — never a date printed in its own scale (`raw`), never a date
+converted to some other scale, such as the first segment's (`foreign-scale`) -/
 theorem ccsds_writers_convert_to_time_system :
-    (∃ s ∈ writerEpochSites, s.2.2 = "converted") ∧ ∀ s ∈ writerEpochSites, s.2.2 ≠ "raw" := by decide
+    (∃ s ∈ writerEpochSites, s.2.2 = "converted") ∧
+    ∀ s ∈ writerEpochSites, s.2.2 = "head" ∨ s.2.2 = "converted" ∨ s.2.2 = "creation" := by decide
+
+/-- **every segment of a message of several objects is written under the scale of its own head**, and each is the
+single-object dump of that object — so `ccsds_epoch_roundtrip` applies segment by segment -/
+theorem ccsds_segments_own_time_system (env : Env) :
+    ∀ (ms : List CcsdsDate.Message) (ws : List (Nat × List Int)), CcsdsDate.dumpSegments cfg env ms = .ok ws →
+      List.Forall₂ (fun m w => CcsdsDate.Message.dump cfg env m = .ok w ∧ w.1 = m.head.scale) ms ws := by
+  intro ms
+  induction ms with
+  | nil => intro ws h; simp [CcsdsDate.dumpSegments] at h; subst h; exact List.Forall₂.nil
+  | cons m ms ih =>
+    intro ws h
+    unfold CcsdsDate.dumpSegments at h
+    split at h
+    · cases h
+    · next w hw =>
+      split at h
+      · cases h
+      · next ws' hws =>
+        cases h
+        refine List.Forall₂.cons ⟨hw, ?_⟩ (ih ws' hws)
+        unfold CcsdsDate.Message.dump at hw
+        split at hw
+        · cases hw; rfl
+        · cases hw
 
 /-- an epoch that already carries the label of TIME_SYSTEM is written as its own clock reading and reads back as the
 same instant (UTC, TAI, TT, GPS; whole microseconds) -/
